@@ -128,6 +128,9 @@ def eval_count(stream, istream, fn, kw):
 def check_case(case):
     stream = parse_stream(case["stream"])
     istream = [N.to_impl(n) for n in stream]
+    if case["kind"] == "group-defaults":
+        return [{"clause": "group_notes called with its default options differs from the documented defaults", "expected": core.jsonable(e), "observed": core.jsonable(o)}
+                for j, e, o in eval_group_defaults(stream, istream) if j == case["join"]]
     if case["kind"] == "group":
         r = eval_group(stream, istream, tuple(case["include"]), case["mode"], case["join"], case["head"], case["tail"])
         clause = "group_notes output differs from the documented rules"
@@ -181,9 +184,35 @@ def configs_for(types, present):
     return _CFG_CACHE[key]
 
 
+def eval_group_defaults(stream, istream):
+    """The documented defaults: every note type, KEEP_SEPARATE, no joining; with joining on, RAISE for both orphans."""
+    out = []
+    for join in (False, True):
+        try:
+            exp = ("ok", M.group_model(stream, M.ALL_TYPES, M.SEPARATE, join, M.RAISE, M.RAISE))
+        except M.Raises as r:
+            exp = ("raise", r.candidates)
+        try:
+            kw = {"join_heads_to_tails": True} if join else {}
+            obs = ("ok", [[N.from_impl(n) for n in g] for g in N.group_notes(iter(istream), **kw)])
+        except N.OrphanedNoteException as e:
+            obs = ("raise", N.from_impl(e.args[0]) if e.args else None)
+        except core.WatchdogTimeout:
+            raise
+        except Exception as e:
+            obs = ("exc", f"{type(e).__name__}: {e}")
+        ok = (obs == exp) if exp[0] == "ok" else (obs[0] == "raise" and obs[1] in exp[1])
+        if not ok:
+            out.append((join, exp, obs))
+    return out
+
+
 def check_node(acc, grid, stream, types):
     group_cfgs, count_cfgs = configs_for(types, set(x[2] for x in stream))
     istream = [N.to_impl(n) for n in stream]
+    for join, exp, obs in eval_group_defaults(stream, istream):
+        acc.violation("group_notes called with its default options differs from the documented defaults",
+                      {"kind": "group-defaults", "stream": fmt_stream(stream), "join": join}, exp, obs, signature=("group-defaults", join))
     core.guard_cheap(acc, {"kind": "node", "grid": grid, "stream": fmt_stream(stream)})
     n = 0
     for (inc, mode, join, hp, tp) in group_cfgs:
